@@ -648,7 +648,11 @@ class DatasetWorld(object):
             ctx.probe('alf_times_single_precision')
             t64 = g.alf_times.astype(np.float64)
             exact = t64 * g.sr
-            bound = 0.5 + 0.5 * np.spacing(np.abs(exact).astype(np.float32)).astype(np.float64)
+            # (half a sample for the rounding, half a float32 ulp for the product, and the error
+            # of the sampling rate itself once it is taken in single precision)
+            sr_err = abs(float(np.float32(g.sr)) - float(g.sr))
+            bound = 0.5 + 0.5 * np.spacing(np.abs(exact).astype(np.float32)).astype(np.float64) \
+                + np.abs(t64) * sr_err
             got = np.asarray(m.spike_samples)
             ok = got.shape == exact.shape and got.dtype.kind in 'iu' and bool(
                 np.all(np.abs(got.astype(np.float64) - exact) <= bound * (1 + 1e-12)))
